@@ -9,7 +9,6 @@ MODULE = "UpdateErrorTrace"
 STRICT = "UpdateErrorTrace.cfg"
 KF = "UpdateErrorKF.cfg"
 TRIAGE = "UpdateErrorTriage.cfg"
-CONF = "UpdateErrorConf.cfg"
 D_INVS = ["D_C06_NeverWeaker_Fixed", "D_C06_NeverWeaker_KF", "D_C06_MaskedIsTheOnlyGap",
           "D_C06_ResetOnlyIfCalledFor", "D_C06_WellFormedNotPenalised"]
 
@@ -94,6 +93,7 @@ def triage(run, traces):
     if res.errors or res.violated or res.post_failed:
         return None         # let the strict validation report the gap / error
     out = {}
+    conf = set()
     for ln in res.printed:
         try:
             o = json.loads(ln)
@@ -101,10 +101,14 @@ def triage(run, traces):
             continue
         if isinstance(o, dict) and "triage" in o:
             out[o["triage"]["id"]] = o["triage"]
+        elif isinstance(o, dict) and "conf" in o:
+            conf.add(o["conf"]["id"])
+    # informational: recorded handling class differs from the mechanism layer's prediction (wb)
+    run.conf_mismatch += len(conf)
     return out
 
 
-def judge(run, group, behs, traces, batch, conf=True):
+def judge(run, group, behs, traces, batch):
     """Route every recorded trace to the validation that makes its verdict:
        passes the strict invariants (the bulk)            -> strict cfg, one batch;
        fails one exactly as a REGISTERED known finding     -> KF cfg (weakened invariants), counted
@@ -133,7 +137,7 @@ def judge(run, group, behs, traces, batch, conf=True):
           % (group, len(behs), len(passing), len(known), len(other)))
     if passing:
         t, b = sel(passing)
-        run.validate(MODULE, STRICT, t, b, known_cfg=KF, group=group, conf_cfg=CONF if conf else None, batch=batch)
+        run.validate(MODULE, STRICT, t, b, known_cfg=KF, group=group, batch=batch)
     if known:
         t, b = sel([i for i, _ in known])
         val = run.validate(MODULE, KF, t, b, group=group, batch=batch)
@@ -196,7 +200,7 @@ def main(run: Run):
     run.extra["cases_end_to_end"] = len(e2e)
     traces = execute_parallel(run, "^TestVerifC06E2E$", e2e, "c06-e2e", 4 if thorough else 3)
     tolerated(run, e2e, traces, "tolerated_discard_answered_by_withdraw_e2e")
-    judge(run, "e2e", e2e, traces, batch=3000, conf=False)
+    judge(run, "e2e", e2e, traces, batch=3000)
 
 
 RULE = ("cases = TLC enumeration (UpdateErrorGen.tla, initial states) of peer type {eBGP, iBGP, confederation} x "
